@@ -277,7 +277,7 @@ def gen_unordered(rng, layout=None, maxpx=40, symmetric=None, colspec=None, maxc
 
 
 # ---------------------------------------------------------------------- faults
-F1_KINDS = ("oob", "neg", "tril", "dup", "neg2", "oob1")
+F1_KINDS = ("oob", "neg", "tril", "dup", "neg2", "oob1", "dupfar")
 
 
 def f1_placements(op):
@@ -288,6 +288,8 @@ def f1_placements(op):
             if sub == "tril" and not op["symmetric"]:
                 continue
             if sub == "dup" and len(ch["bin1_id"]) == 0:
+                continue
+            if sub == "dupfar" and len(ch["bin1_id"]) < 2:
                 continue
             for pos in ("first", "mid", "last"):
                 out.append({"kind": "F1", "sub": sub, "chunk": k, "pos": pos})
